@@ -175,7 +175,7 @@ func (vc *VC) specExpr(env *Env, e SExpr) (Term, types.Type) {
 			if x.Hi != nil {
 				hi, _ = vc.specExpr(env, x.Hi)
 			}
-			return MkSlice(SBase(s), Add(SOff(s), lo), Sub(hi, lo), Sub(SCap(s), lo)), st
+			return MkSlice(SBase(s), Add0(SOff(s), lo), Sub0(hi, lo), Sub0(SCap(s), lo)), st
 		case *types.Basic:
 			hi := App(SInt, "strlen", s)
 			if x.Hi != nil {
@@ -1543,6 +1543,9 @@ func (vc *VC) assertAxiomsFor(name string) {
 	re := regexp.MustCompile(`\b` + regexp.QuoteMeta(name) + `\b`)
 	for _, ax := range vc.eng.ss.Axioms {
 		if vc.assumedFacts["axiom:"+ax.Label+ax.Text] || !re.MatchString(ax.Text) || ax.Expr == nil {
+			continue
+		}
+		if ax.Scope != "" && (vc.top == nil || !strings.Contains(vc.top.fn.String(), ax.Scope)) {
 			continue
 		}
 		vc.assumedFacts["axiom:"+ax.Label+ax.Text] = true
